@@ -139,7 +139,7 @@ def part_histories(rep):
     for h in hists.values():
         cases.append({"id": len(cases), "h": h, "observe": "last", "battery": bpath, "src": "enum"})
     # ---- 2. simulation walks ----------------------------------------------------------------------------
-    per_worker = 24 if quick else 250
+    per_worker = 24 if quick else 150
     if os.environ.get("C08_WALKS"):                  # scratch runs on a loaded machine (mutant trials): fewer walks
         per_worker = int(os.environ["C08_WALKS"])
     sim = tlc_run(pid, "C08", SIM_CFG, env={"MAXLEN": "12"}, timeout=900, tag="sim", simulate="num=%d" % per_worker,
@@ -152,7 +152,7 @@ def part_histories(rep):
     if len(walks) < per_worker * 4 or not walks:
         raise Machinery("simulation produced only %d walks" % len(walks))
     if not quick:
-        sim2 = tlc_run(pid, "C08", SIM_CFG, env={"MAXLEN": "25"}, timeout=900, tag="sim25", simulate="num=60",
+        sim2 = tlc_run(pid, "C08", SIM_CFG, env={"MAXLEN": "25"}, timeout=900, tag="sim25", simulate="num=30",
                        depth=27, seed=rep.seed + 1)
         rep.add_tlc("ObjModel -simulate walks depth 25", sim2)
         for x in sim2.records:
@@ -166,7 +166,7 @@ def part_histories(rep):
     nrand = 0
     if not quick:
         rnd = random.Random(rep.seed)
-        for _ in range(1500):
+        for _ in range(1000):
             cases.append({"id": len(cases), "h": random_history(rnd, universe), "observe": "all", "battery": bpath,
                           "src": "random"})
             nrand += 1
